@@ -551,6 +551,15 @@ def _build(v, w):
             return pendulum.Time(base.hour, base.minute, base.second, base.microsecond, tzinfo=base.tzinfo)
         if kind == "td":
             return pendulum.duration(days=base.days, seconds=base.seconds, microseconds=base.microseconds)
+    if tag == "$tsub":  # an instance of a user subclass of a datetime member (same value, another class)
+        base = _build(a, w)
+        if isinstance(base, datetime.datetime):
+            return _DtSub(base.year, base.month, base.day, base.hour, base.minute, base.second, base.microsecond, tzinfo=base.tzinfo, fold=base.fold)
+        if isinstance(base, datetime.date):
+            return _DateSub(base.year, base.month, base.day)
+        if isinstance(base, datetime.time):
+            return _TimeSub(base.hour, base.minute, base.second, base.microsecond, tzinfo=base.tzinfo, fold=base.fold)
+        return _TdSub(days=base.days, seconds=base.seconds, microseconds=base.microseconds)
     if tag == "$strsub":
         return _StrSub(a)
     if tag == "$intsub":
@@ -570,6 +579,22 @@ class _StrSub(str):
 
 
 class _IntSub(int):
+    __slots__ = ()
+
+
+class _DtSub(datetime.datetime):
+    __slots__ = ()
+
+
+class _DateSub(datetime.date):
+    __slots__ = ()
+
+
+class _TimeSub(datetime.time):
+    __slots__ = ()
+
+
+class _TdSub(datetime.timedelta):
     __slots__ = ()
 
 
